@@ -24,9 +24,10 @@ EXPLANATION = (
     "the object it returns); R-history-json-types (the viability flags stored in _history are Python "
     "bools -- builtin all/any/not/and -- never numpy reductions, and historized values go through "
     "the base-type converter: to_json() stays serialisable by the json module)."
+    " Also R-labels-last / R-labels-refreshed (the loader re-fits on the dumped orders: the original's label table must be the one computed from its final orders with its own output_dtype, at fit and after every manual edit)."
 )
 NOT_DECIDED = "behavioural equality of the reloaded object on data; json module's own float round trip"
-FLOORS = {"R-json-keys": 3, "R-json-extras": 2, "R-json-closure": 1, "R-sentinel": 4, "R-json-order": 1, "R-loader-fits": 3, "R-summary-scope": 1, "R-history-json-types": 9}
+FLOORS = {"R-json-keys": 3, "R-json-extras": 2, "R-json-closure": 1, "R-sentinel": 4, "R-json-order": 1, "R-loader-fits": 3, "R-summary-scope": 1, "R-history-json-types": 9, "R-labels-last": 12, "R-labels-refreshed": 2}
 
 NON_BEHAVIOURAL = {"verbose": "printing only", "n_jobs": "number of worker processes only (C10: result independent of it)"}
 
@@ -293,6 +294,12 @@ def check(ctx):
     from . import c16
 
     c16.rule_summary_number_filter(ctx)  # the summary of a reloaded object (builtin numbers) equals the original's (numpy numbers)
+    # the loader re-fits a BaseDiscretizer on the dumped orders: it equals the original only if the original's label
+    # table is the one computed from its *final* orders with its own output_dtype, at fit and after every manual edit
+    from . import c04, c17
+
+    c04.rule_labels_last(ctx)
+    c17.rule_update(ctx)
 
 
 _D13 = """        # adding history of loaded carvers
